@@ -18,10 +18,16 @@ Inductive action :=
 | ADestroyL (l : nat)
 | ADestroyE (e : nat).
 
-(* what slot s of listener l does when invoked *)
-Definition scripts := nat -> nat -> list action.
-
+(* one invocation: slot i_s of listener i_l called by signal i_sg of emitter i_e *)
 Record inv := mkInv { i_e : nat; i_sg : nat; i_l : nat; i_s : nat }.
+
+(* What slot s of listener l does when invoked.  A slot is a program with memory: its behaviour may depend on
+   everything that has been invoked so far.  The first argument is the invocation log of the top-level
+   operation in progress, newest first; its head is the invocation being served.  (Histories: the theorems
+   quantify over a family of scripts indexed by the logs of the earlier top-level operations, CallbackMain.hrun.)
+   So "disconnect myself at the first call, emit again at the second", counters, flags set by other slots are
+   all members of the quantified class. *)
+Definition scripts := list inv -> nat -> nat -> list action.
 
 Inductive outcome (A : Type) :=
 | Done (a : A)
@@ -61,9 +67,27 @@ Definition sp_init (ne nl nsg : nat) : sp :=
 Definition sp_connect (st : sp) (e sg l s : nat) : sp :=
   mkSp (sp_conns st ++ [mkConn e sg l s (sp_next st)]) (S (sp_next st)) (sp_E st) (sp_L st) (sp_em st) (sp_nsg st).
 
-(* disconnect removes the oldest live connection of that (emitter, signal, listener, slot) *)
+(* disconnect removes ONE live connection of that (emitter, signal, listener, slot).  The property text does
+   not say which one when several identical connections exist: the reference object takes the choice as a
+   parameter (a policy `picker`: index among the identical live connections, oldest = 0, clamped to the
+   newest).  `sp_disconnect` is the instance "the oldest" - the policy of the code as it is. *)
+Fixpoint rm_nth {A} (p : A -> bool) (k : nat) (l : list A) : list A :=
+  match l with
+  | [] => []
+  | x :: t => if p x then match k with O => t | S k' => x :: rm_nth p k' t end else x :: rm_nth p k t
+  end.
+
+Definition sp_disconnect_at (k : nat) (st : sp) (e sg l s : nat) : sp :=
+  let q := ckey e sg l s in
+  mkSp (rm_nth q (Nat.min k (pred (length (filter q (sp_conns st))))) (sp_conns st))
+       (sp_next st) (sp_E st) (sp_L st) (sp_em st) (sp_nsg st).
+
 Definition sp_disconnect (st : sp) (e sg l s : nat) : sp :=
   mkSp (rm_first (ckey e sg l s) (sp_conns st)) (sp_next st) (sp_E st) (sp_L st) (sp_em st) (sp_nsg st).
+
+(* which of several identical connections a disconnect cancels: a function of the reference state and the key *)
+Definition picker := sp -> nat -> nat -> nat -> nat -> nat.
+Definition oldest : picker := fun _ _ _ _ _ => 0.
 
 Definition sp_destroyL (st : sp) (l : nat) : sp :=
   mkSp (filter (fun c => negb (c_l c =? l)) (sp_conns st)) (sp_next st) (sp_E st) (upd1 (sp_L st) l false) (sp_em st) (sp_nsg st).
@@ -97,6 +121,7 @@ Definition sp_end (st : sp) (e sg : nat) : sp :=
 (* The client never hands a destroyed object to the library: such actions are skipped.
    Emissions nested deeper than maxd are skipped (keeps scripted runs finite). *)
 Section Interp.
+Variable pick : picker.
 Variable sc : scripts.
 Variable maxd : nat.
 
@@ -111,7 +136,7 @@ Fixpoint sexec (fuel d : nat) (st : sp) (lg : list inv) (acts : list action) {st
       | AConnect e sg l s =>
           if sp_E st e && sp_L st l && (sg <? sp_nsg st) then sexec f d (sp_connect st e sg l s) lg rest else sexec f d st lg rest
       | ADisconnect e sg l s =>
-          if sp_E st e && sp_L st l && (sg <? sp_nsg st) then sexec f d (sp_disconnect st e sg l s) lg rest else sexec f d st lg rest
+          if sp_E st e && sp_L st l && (sg <? sp_nsg st) then sexec f d (sp_disconnect_at (pick st e sg l s) st e sg l s) lg rest else sexec f d st lg rest
       | ADestroyL l =>
           if sp_L st l then sexec f d (sp_destroyL st l) lg rest else sexec f d st lg rest
       | ADestroyE e =>
@@ -133,7 +158,7 @@ with sloop (fuel d : nat) (st : sp) (lg : list inv) (e sg : nat) {struct fuel} :
     match sp_turn st e sg with
     | None => Done (st, lg)
     | Some c =>
-      match sexec f (S d) (sp_advance st e sg c) (mkInv e sg (c_l c) (c_s c) :: lg) (sc (c_l c) (c_s c)) with
+      match sexec f (S d) (sp_advance st e sg c) (mkInv e sg (c_l c) (c_s c) :: lg) (sc (mkInv e sg (c_l c) (c_s c) :: lg) (c_l c) (c_s c)) with
       | Done (st', lg') => if sp_E st' e then sloop f d st' lg' e sg else Done (st', lg')
       | o => o
       end
@@ -142,5 +167,5 @@ with sloop (fuel d : nat) (st : sp) (lg : list inv) (e sg : nat) {struct fuel} :
 End Interp.
 
 (* top level: one action of the test program, run to completion; returns the invocations in order *)
-Definition spec_step (sc : scripts) (maxd fuel : nat) (st : sp) (a : action) : outcome (sp * list inv) :=
-  sexec sc maxd fuel 0 st [] [a].
+Definition spec_step (pick : picker) (sc : scripts) (maxd fuel : nat) (st : sp) (a : action) : outcome (sp * list inv) :=
+  sexec pick sc maxd fuel 0 st [] [a].
